@@ -8,9 +8,17 @@ use crate::refs::sampler::SIGMA_MAX;
 use crate::refs::spec::{self, Q};
 use crate::util::{counter_seed, hex, monitored, ncpu, par_for, seed32, short_loc, unhex, Ctx, Report};
 
+thread_local! {
+    /// (harness seed, history index) while a call history runs on this thread
+    static HISTORY: std::cell::Cell<Option<(u64, usize)>> = std::cell::Cell::new(None);
+}
+
 pub fn check_key<V: Fv>(seed: [u8; 32], gso: bool, rep: &mut Report) {
     rep.evaluations += 1;
-    let replay = || json!({"variant": V::NAME, "seed": hex(&seed), "gso": gso});
+    let replay = || match HISTORY.with(|h| h.get()) {
+        None => json!({"variant": V::NAME, "seed": hex(&seed), "gso": gso}),
+        Some((vs, hi)) => json!({"variant": V::NAME, "seed": hex(&seed), "gso": gso, "history": [vs, hi]}),
+    };
     let (sk, pk) = match monitored(|| V::keygen(seed)) {
         Ok(k) => k,
         Err(p) => {
@@ -118,6 +126,86 @@ pub fn check_key<V: Fv>(seed: [u8; 32], gso: bool, rep: &mut Report) {
     rep.nontrivial(&seed);
 }
 
+/// Call histories: each history runs in a FRESH thread and mixes the two parameter sets and the
+/// ways a secret key object comes into being (keygen, from_bytes), so that per-thread state
+/// carried from one key to the next (a cached parameter, a memoised tree) is exercised in both
+/// orders. Every key generated inside a history gets the full set of oracles.
+fn histories(ctx: &Ctx, rep: &mut Report) {
+    let h = ctx.sz(16, 96);
+    let r = par_for(h, ncpu(), |hi, rep| run_history(ctx.seed, hi, rep));
+    rep.merge(r);
+    rep.require("histories_512_then_1024", 2);
+    rep.require("histories_1024_then_512", 2);
+}
+
+fn run_history(vseed: u64, hi: usize, rep: &mut Report) {
+    {
+        let out = std::thread::scope(|s| {
+            s.spawn(move || {
+                let mut rep = Report::new();
+                HISTORY.with(|h| h.set(Some((vseed, hi))));
+                let sd = |step: usize| seed32(vseed, &format!("c04-hist-{}-{}", hi, step));
+                fn decode_first<V: Fv>(seed: [u8; 32], rep: &mut Report) {
+                    // a key of this variant is decoded from bytes (produced in another thread)
+                    let bytes = std::thread::spawn(move || monitored(|| V::sk_to_bytes(&V::keygen(seed).0)).ok()).join().ok().flatten();
+                    if let Some(b) = bytes {
+                        let _ = monitored(|| V::sk_from_bytes(&b).map(|k| V::leaves(&k).len()));
+                        rep.count("history_steps_decode", 1);
+                    }
+                }
+                match hi % 6 {
+                    0 => {
+                        check_key::<F512>(sd(0), false, &mut rep);
+                        check_key::<F1024>(sd(1), false, &mut rep);
+                        rep.count("histories_512_then_1024", 1);
+                    }
+                    1 => {
+                        check_key::<F1024>(sd(0), false, &mut rep);
+                        check_key::<F512>(sd(1), false, &mut rep);
+                        rep.count("histories_1024_then_512", 1);
+                    }
+                    2 => {
+                        decode_first::<F512>(sd(0), &mut rep);
+                        check_key::<F1024>(sd(1), false, &mut rep);
+                        check_key::<F512>(sd(2), false, &mut rep);
+                        rep.count("histories_decode512_then_1024", 1);
+                    }
+                    3 => {
+                        decode_first::<F1024>(sd(0), &mut rep);
+                        check_key::<F512>(sd(1), false, &mut rep);
+                        check_key::<F1024>(sd(2), false, &mut rep);
+                        rep.count("histories_decode1024_then_512", 1);
+                    }
+                    4 => {
+                        // sign with one variant, then generate the other
+                        let (sk, _) = F512::keygen(sd(0));
+                        let _ = monitored(|| F512::sign(b"history", &sk));
+                        check_key::<F1024>(sd(1), false, &mut rep);
+                        check_key::<F1024>(sd(2), false, &mut rep);
+                        rep.count("histories_sign512_then_1024", 1);
+                    }
+                    _ => {
+                        for step in 0..4 {
+                            if (hi / 6 + step) % 2 == 0 {
+                                check_key::<F512>(sd(step), false, &mut rep);
+                            } else {
+                                check_key::<F1024>(sd(step), false, &mut rep);
+                            }
+                        }
+                        rep.count("histories_alternating", 1);
+                    }
+                }
+                rep
+            })
+            .join()
+        });
+        match out {
+            Ok(r) => rep.merge(r),
+            Err(_) => rep.inconclusive("a history thread died".into()),
+        }
+    }
+}
+
 pub fn keys(ctx: &Ctx, rep: &mut Report) {
     if !crate::pool::keygen_responds::<F512>() {
         rep.inconclusive("key generation did not return within 180 s (canary); reported as inconclusive, never as a violation".into());
@@ -148,6 +236,7 @@ pub fn keys(ctx: &Ctx, rep: &mut Report) {
         }
     });
     rep.merge(r);
+    histories(ctx, rep);
     rep.require("keys_falcon512", 50);
     rep.require("keys_falcon1024", 10);
     rep.require("keys_with_independent_gso", 2);
@@ -158,6 +247,12 @@ pub fn replay(r: &Value) -> bool {
     let mut seed = [0u8; 32];
     seed.copy_from_slice(&unhex(r["seed"].as_str().unwrap()));
     let gso = r["gso"].as_bool().unwrap_or(false);
+    if let Some(h) = r["history"].as_array() {
+        // found inside a call history: the whole history is run again in a fresh thread
+        run_history(h[0].as_u64().unwrap_or(0), h[1].as_u64().unwrap_or(0) as usize, &mut rep);
+        println!("history {:?} counters {:?}", h, rep.counters);
+        return crate::util::print_replay(&rep);
+    }
     match r["variant"].as_str().unwrap_or("") {
         "falcon512" => check_key::<F512>(seed, gso, &mut rep),
         _ => check_key::<F1024>(seed, gso, &mut rep),
